@@ -24,7 +24,7 @@ def pick(rnd, i):
 CHECK = ComponentCheck("C14", pick, embedded=(("BasicFifo", "FIFO"), ("serializer", "zipper", "pipeline")),
                        suite=(("BasicFifo", "FIFO"), ("test/lib/test_fifo.py", "test/lib/test_reqres.py", "test/lib/test_pipeline.py", "test/lib/test_connectors.py")))
 shards, run_shard = CHECK.shards, CHECK.run_shard
-RULE = ("[plus a second workload: BasicFifo instances embedded in PipelineBuilder pipelines, Serializer and ArgumentsToResultsZipper, watched passively (vf/passive.py) against the same reference model: readiness, results and state registers every cycle, conditions embedded:*] histories = random hostile call sequences (per-method enable probability re-drawn from {0.1,0.5,0.9,1} every 20-120 cycles) "
+RULE = ("[in 30% of the histories every provided exclusive method has a second, competing caller transaction: a request is issued by the main caller, the rival or both; condition exclusive_method_serves_at_most_one_caller_per_cycle] [plus a second workload: BasicFifo instances embedded in PipelineBuilder pipelines, Serializer and ArgumentsToResultsZipper, watched passively (vf/passive.py) against the same reference model: readiness, results and state registers every cycle, conditions embedded:*] histories = random hostile call sequences (per-method enable probability re-drawn from {0.1,0.5,0.9,1} every 20-120 cycles) "
         "on FIFO/BasicFifo of depth 1..16 and 1-3 field layouts with unique payload ids, followed by a drain phase; "
         "a case is non-trivial and distinct by (component, depth, set of simultaneously executed methods among read+write / clear+write / "
         "clear+read / peek+read, boundary class full/1/other, level)")
